@@ -502,6 +502,9 @@ def jobs_for(prop, tier):
         j = j + longruns([("churn", 100, 250), ("churn", 20, 250)], lru=1)
     if prop in ("C08", "C17", "C01"):
         j = j + [{"id": "scalex-types1cpu", "argv": ["scalex", "types1cpu"]}]
+    # one cache object living through 400 000 operations (pressure-free, compared with a map)
+    if prop in ("C01", "C03", "C05", "C07", "C10", "C16"):
+        j = j + [{"id": "scalex-typeslong", "argv": ["scalex", "typeslong"]}]
     if prop in ("C01", "C03", "C16"):
         j = j + unit_space(tier, prop.lower())
     # key / value types other than the search engines' own, RandomState, build() (E1d)
